@@ -1,7 +1,8 @@
 import subprocess, re, sys
 IMPORTS = "Require Import Py ListsGen ConstGen AlgebraGen AlgebraSpec IfaceSpec Sem Term Poly Tactics PolyDomain PolySpec TermFacts PolyFacts TacticsFacts PolyDomainFacts EqFacts PolyKeepFacts."
+EXTRA = ""
 def types(names):
-    body = "From Coq Require Import List String Bool QArith Reals. Import ListNotations.\n" + IMPORTS + "\nSet Printing Width 110. Set Printing Depth 1000.\n" + "".join(f"Check @{n}.\n" for n in names)
+    body = "From Coq Require Import List String Bool QArith Reals. Import ListNotations.\n" + IMPORTS + EXTRA + "\nSet Printing Width 110. Set Printing Depth 1000.\n" + "".join(f"Check @{n}.\n" for n in names)
     open('/tmp/gt.v','w').write(body)
     out = subprocess.run("cd /verif/coq && coqtop -Q base '' -Q gen '' -Q model '' -Q proofs '' -Q props '' -batch -l /tmp/gt.v", shell=True, capture_output=True, text=True).stdout
     res = {}
@@ -13,9 +14,13 @@ def types(names):
         if cur is not None:
             res[cur].append(line)
     return {k: "\n".join(v).strip()[1:].strip() for k, v in res.items()}
-def gen(pid, header, items):
+def gen(pid, header, items, extra=""):
+    global EXTRA
+    if pid not in sys.argv[1:]:      # usage: genprops.py C16 C19 …  (C01/C02/C08 carry hand-made implicit-argument fixes)
+        return
+    EXTRA = ("\nRequire Import " + extra + ".") if extra else ""
     ty = types([src for _, src, _ in items])
-    s = header + "\nFrom Coq Require Import List String Bool QArith Reals.\nImport ListNotations.\n" + IMPORTS + "\n\n"
+    s = header + "\nFrom Coq Require Import List String Bool QArith Reals.\nImport ListNotations.\n" + IMPORTS + EXTRA + "\n\n"
     for name, src, comment in items:
         s += f"(* {comment} *)\nTheorem {name} :\n  {ty[src]}.\nProof. exact @{src}. Qed.\nPrint Assumptions {name}.\n\n"
     open(f'/verif/coq/props/{pid}.v','w').write(s)
@@ -48,7 +53,8 @@ gen("C16", """(* C16 — renaming variables is faithful substitution.  Interface
      ("C16_interface", "C16_poly_iface", "the interface lists are updated as prescribed"),
      ("C16_absent", "C16_poly_absent", "renaming an absent variable changes nothing"),
      ("C16_clash", "C16_poly_clash", "a renaming that would make a variable both input and output raises IncompatibleArgs"),
-     ("C16_term", "rename_sem", "term level: coefficients are added when the new name already occurs")])
+     ("C16_term", "rename_sem", "term level: coefficients are added when the new name already occurs"),
+     ("C16_code_rename_variable", "rename_variable_eq", "T1 tie: PolyhedralTerm.rename_variable as translated from polyhedra.py on this run IS the model function (on terms without a stored zero)")], extra="PyDict TermGen TermGenRename")
 gen("C19", """(* C19 — equality, hashing and copying of terms, lists and contracts are coherent.  Contract equality is the T1 translation of
    IoContract.__eq__ (regenerated on every run: it compares the four fields, the OTHER contract's outputs included); term
    equality/keys from model/Term.v; hash(x) = H(key x) for an arbitrary H.  Statements only; proofs in proofs/EqFacts.v,
@@ -62,5 +68,8 @@ gen("C19", """(* C19 — equality, hashing and copying of terms, lists and contr
      ("C19_term_eq_trans", "term_eqb_trans", "term equality transitive"),
      ("C19_term_eq_key", "term_eqb_key", "equal terms have equal keys (hash equally)"),
      ("C19_term_copy", "term_copy_eq", "a copy of a term is equal to (and is) its original"),
+     ("C19_code_term_eq", "eq_eq", "T1 tie: PolyhedralTerm.__eq__ as translated from polyhedra.py on this run IS the model's term equality"),
+     ("C19_code_term_copy", "copy_eq", "T1 tie: PolyhedralTerm.copy as translated from polyhedra.py on this run IS the model's copy"),
+     ("C19_code_term_init", "init_eq", "T1 tie: the constructor (drops zero coefficients) as translated IS mk_term"),
      ("C19_list_eq_keys", "tlist_eqb_keys", "equal lists have equal key lists"),
-     ("C19_contract_copy", "pcontract_copy_inv", "a copy has the same interface and assumptions and the re-simplified guarantees")])
+     ("C19_contract_copy", "pcontract_copy_inv", "a copy has the same interface and assumptions and the re-simplified guarantees")], extra="PyDict TermGen TermGenCore")
